@@ -112,3 +112,107 @@ func TestTopLevelBatches(t *testing.T) {
 		stats.Case(key, "A_top_level_batch", fmt.Sprintf("batch_top_level_non_list_values_%d", scalars))
 	})
 }
+
+// Self-referential types ("Recursive struct types are supported", rlp/encode.go): a linked list through an
+// optional pointer and a tree through a slice of its own type.
+type recList struct {
+	Val  uint64
+	Next *recList `rlp:"nil"`
+}
+
+type recTree struct {
+	Tag  string
+	Kids []recTree
+}
+
+func genRecList(t *rapid.T, depth int) (*recList, *ref.Item) {
+	v := rapid.Uint64().Draw(t, "recVal")
+	n := &recList{Val: v}
+	it := &ref.Item{IsList: true, List: []*ref.Item{uintItem(v)}}
+	if depth > 0 && rapid.IntRange(0, 3).Draw(t, "recMore") > 0 {
+		nx, nit := genRecList(t, depth-1)
+		n.Next = nx
+		it.List = append(it.List, nit)
+	} else {
+		it.List = append(it.List, &ref.Item{IsList: true}) // nil pointer to a struct: empty list
+	}
+	return n, it
+}
+
+func genRecTree(t *rapid.T, depth int) (recTree, *ref.Item) {
+	tag := rapid.StringN(0, 6, 6).Draw(t, "treeTag")
+	n := recTree{Tag: tag, Kids: []recTree{}}
+	kids := &ref.Item{IsList: true}
+	if depth > 0 {
+		for i, k := 0, rapid.IntRange(0, 3).Draw(t, "treeKids"); i < k; i++ {
+			c, cit := genRecTree(t, depth-1)
+			n.Kids = append(n.Kids, c)
+			kids.List = append(kids.List, cit)
+		}
+	}
+	return n, &ref.Item{IsList: true, List: []*ref.Item{{Str: []byte(tag)}, kids}}
+}
+
+func eqRecList(a, b *recList) bool {
+	for a != nil && b != nil {
+		if a.Val != b.Val {
+			return false
+		}
+		a, b = a.Next, b.Next
+	}
+	return a == nil && b == nil
+}
+
+func eqRecTree(a, b *recTree) bool {
+	if a.Tag != b.Tag || len(a.Kids) != len(b.Kids) {
+		return false
+	}
+	for i := range a.Kids {
+		if !eqRecTree(&a.Kids[i], &b.Kids[i]) {
+			return false
+		}
+	}
+	return true
+}
+
+func TestRecursiveTypes(t *testing.T) {
+	stats.Check(t, 1500, 20000, func(t *rapid.T) {
+		l, lit := genRecList(t, 4)
+		want := ref.RLPEncode(lit)
+		var enc []byte
+		var err error
+		if e, p := safe(func() error { enc, err = rlp.EncodeToBytes(l); return err }); e != nil || p != nil {
+			t.Fatalf("encoding a linked list through an optional self pointer failed: err=%v panic=%v", e, p)
+		}
+		if !bytes.Equal(enc, want) {
+			t.Fatalf("linked list: encoding differs from the reference: got %x want %x", enc, want)
+		}
+		var back recList
+		if e, p := safe(func() error { return rlp.DecodeBytes(want, &back) }); e != nil || p != nil {
+			t.Fatalf("decoding the canonical bytes %x into a self-referential list type failed: err=%v panic=%v", want, e, p)
+		}
+		if !eqRecList(l, &back) {
+			t.Fatalf("linked list does not survive the round trip: %x", want)
+		}
+		tr, tit := genRecTree(t, 3)
+		wantT := ref.RLPEncode(tit)
+		if e, p := safe(func() error { enc, err = rlp.EncodeToBytes(&tr); return err }); e != nil || p != nil {
+			t.Fatalf("encoding a tree through a slice of its own type failed: err=%v panic=%v", e, p)
+		}
+		if !bytes.Equal(enc, wantT) {
+			t.Fatalf("tree: encoding differs from the reference: got %x want %x", enc, wantT)
+		}
+		var backT recTree
+		if e, p := safe(func() error { return rlp.DecodeBytes(wantT, &backT) }); e != nil || p != nil {
+			t.Fatalf("decoding the canonical bytes %x into a self-referential tree type failed: err=%v panic=%v", wantT, e, p)
+		}
+		if !eqRecTree(&tr, &backT) {
+			t.Fatalf("tree does not survive the round trip: %x", wantT)
+		}
+		key := ""
+		if l.Next != nil || len(tr.Kids) > 0 {
+			key = fmt.Sprintf("rec:%x:%x", want, wantT)
+		}
+		stats.Case(key, "A_recursive_types")
+	})
+}
